@@ -44,7 +44,7 @@ ASSUMPTIONS = [
     "by_min intervals: replicates divided by the smallest reported group value or by the smallest group value of the same resample are both accepted",
     "by_min with a NaN group value is left open; row order is not asserted, only the label set and the value per label",
 ]
-PROBES = ["wide_result", "interrupt_fired", "sampler_raise_fired", "multi_column", "underscore_in_values", "bootstrap_on", "by_overall", "by_min", "identity_sampler", "recording_builtin",
+PROBES = ["sampler_reenter_fired", "wide_result", "interrupt_fired", "sampler_raise_fired", "multi_column", "underscore_in_values", "bootstrap_on", "by_overall", "by_min", "identity_sampler", "recording_builtin",
           "builtin_string", "group_absent_in_resample", "nan_entry", "divisor_zero", "ci_checked", "single_group", "scalar_threshold",
           "non_default_pos_label", "bca", "bc", "quantile"]
 
@@ -127,6 +127,8 @@ def generate(rnd, tier):
                 inner = {"sampling_method": rnd.choice(["replacement", "single_pass", "dynamic"]),
                          "stratified_sampling": rnd.choice([None, None, "by_label", "by_group"])}
                 sampler = {"callable": "recording", "inner": inner} if rnd.random() < 0.8 else inner
+                if "callable" in sampler and rnd.random() < 0.12:
+                    sampler["reenter"] = True
             op["sampler"] = sampler
             op["cfg"] = {"nb_samples": rnd.randint(2, 3) if wide else rnd.randint(2, 60), "bootstrap_method": rnd.choice(["quantile", "bc", "bca", "bca"])}
             if rnd.random() < 0.1:
@@ -231,6 +233,7 @@ class RecSampler:
         self.kind, self.inner = kind, inner
         self.inputs, self.outputs = [], []
         self.raise_at, self.raised = raise_at, False
+        self.reenter, self.reentered = False, False
 
     def __call__(self, source, **kw):
         if self.raise_at is not None and len(self.inputs) == self.raise_at:
@@ -238,6 +241,13 @@ class RecSampler:
             self.inputs.append(source)
             raise CallbackFault(f"planned failure of sampler call {self.raise_at}")
         self.inputs.append(source)
+        if self.reenter and len(self.inputs) % 3 == 2:
+            self.reentered = True
+            source.cm(np.array([0.0]))
+            source.group_cm(np.array([0.0]))
+            if len(source.groups):
+                source[source.groups[0]]
+            source.bootstrap_sample(lib().BootstrapConfig(sampling_method="replacement"))
         out = source if self.kind == "identity" else source.bootstrap_sample(self.inner)
         self.outputs.append(out)
         return out
@@ -326,6 +336,7 @@ def execute(scn, ctx):
                 inner = M.build_config(dict(sspec.get("inner", {}), nb_samples=1)) if s_kind == "recording" else None
                 ra = next((f["call"] for f in (op.get("faults") or []) if f["kind"] == "sampler_raise"), None)
                 sampler = RecSampler(s_kind, inner, raise_at=ra)
+                sampler.reenter = bool(sspec.get("reenter"))
                 config = M.build_config(dict(cfg, sampling_method={"callable": s_kind}), sampler=sampler)
             else:
                 config = M.build_config(dict(sspec, **cfg))
@@ -342,6 +353,9 @@ def execute(scn, ctx):
         if sampler is not None and sampler.raised:
             fired.append("sampler_raise")
             probe("sampler_raise_fired")
+        if sampler is not None and sampler.reentered:
+            fired.append("sampler_reenter")
+            probe("sampler_reenter_fired")
         control_fault = res["interrupted"] or (sampler is not None and sampler.raised)
         for kd in fired:
             faults[kd] = faults.get(kd, 0) + 1
